@@ -2259,6 +2259,9 @@ package sftp
 //@   ensures typeis(fi, FileInfoUidGid) ==> flags & sshFileXferAttrUIDGID != 0
 //@   ensures flags & sshFileXferAttrExtended != 0 ==> len(st.Extended) > 0
 // (C06 / C17: an owner supplied through the FileInfoUidGid callbacks is announced in the flags, so it is put on the wire)
+//@   update after call (FileInfoUidGid).Uid#1: ghost.gU = ret
+//@   update after call (FileInfoUidGid).Gid#1: ghost.gG = ret
+//@   ensures typeis(fi, FileInfoUidGid) ==> st.UID == ghost.gU && st.GID == ghost.gG
 
 // ---------------------------------------------------------------------------
 // shutdown of the packet manager (C02: every received request is answered, also when the input ends right behind it)
@@ -2300,6 +2303,8 @@ package sftp
 //@   modifies nothing
 
 //@ ghost var wfail bool
+//@ ghost var gU uint32
+//@ ghost var gG uint32
 //@ ghost var syncOK bool
 //@ ghost var fstN int
 //@ ghost var lkHeld bool
